@@ -157,6 +157,9 @@ func (eng *Engine) verifyFunc(fn *ssa.Function, props []string) (fc *FnCtx, err 
 				}
 			}
 		}
+		if spec != nil && pass == 1 {
+			fr.checkLineHintAnchors()
+		}
 		if spec != nil {
 			for i, h := range spec.Hints {
 				if e := fr.hintErr[i]; e != nil && !fr.hintOK[i] {
